@@ -322,7 +322,9 @@ impl Ctx {
     self.nvars = 0;
     self.nchoice = 0;
     self.trail.clear();
-    self.prefix = prefix;
+    // a concrete replay decides every branch by evaluation and records choices only: the trail it follows is the
+    // symbolic run's with the branch decisions taken out (they may sit between choices)
+    self.prefix = if matches!(self.mode, Mode::Concrete(_)) { prefix.into_iter().filter(|d| matches!(d, Decision::Choice(..))).collect() } else { prefix };
     self.alternatives.clear();
     self.violation = None;
     self.notes.clear();
